@@ -67,6 +67,8 @@ func init() {
 		MinRuns:    16,
 		Exec:       run,
 		PanicClass: kit.PanicInRepo("verifier-panic-escaped"),
+		// reach probes every batch is expected to hit (listed in the evidence as probes_never_hit otherwise)
+		ExpectedProbes: []string{"boundary-at-quorum-closest-only", "boundary-at-quorum-exact", "boundary-below-quorum-closest-only", "boundary-below-quorum-exact", "index-skipped-no-proposer-or-no-honest-quorum", "lowered-threshold-reaches-declared-quorum", "not-applicable.author-lowered-validator-threshold", "not-applicable.author-lowered-validator-threshold-2", "not-applicable.author-lowered-validator-threshold-no-votes", "not-applicable.combo-1", "not-applicable.combo-2", "not-applicable.combo-3", "not-applicable.duplicate-vote", "not-applicable.house-signer", "not-applicable.inflated-weight", "not-applicable.lone-vote-bad-signature", "not-applicable.obs-house-proposer", "not-applicable.obs-offline-proposer", "not-applicable.offline-signer", "not-applicable.proposer-zero-seats", "not-applicable.proposer-zero-seats-claims-one", "not-applicable.rogue-bls-key", "not-applicable.same-signer-two-proofs", "not-applicable.voter-index-of-other", "not-applicable.zero-seat-voter", "obs.declared-cert-threshold-1.rejected", "obs.house-proposer.accepted", "obs.offline-proposer.accepted", "obs.round-field-mismatch.accepted", "obs.votes-at-earlier-index.accepted", "obs.votes-at-later-index.accepted", "seed-lookback-is-not-genesis", "stake-lookback-is-not-genesis", "stake-lookback-valroot-differs-from-genesis"},
 	})
 }
 
